@@ -666,7 +666,14 @@ def fargs(f, cl, payload):
 
 def h_opt_map_or(engine, st, fr, callee, argv, m):
     opt, default, cl = argv
-    f = closure_fn(engine, cl)
+    try:
+        f = closure_fn(engine, cl)
+    except Unsupported:
+        # a library predicate passed as a function item (`char::is_alphabetic`, ...): an arbitrary answer for a present value
+        if isinstance(default, BoolV) and isinstance(cl, Opaque) and cl.ty in ("fnitem", "const"):
+            engine.unmodelled.add("fn item " + cl.label)
+            return ("fork", [(opt.discr == 1, BoolV(z3.Bool("fnitem_%d" % next(engine.fresh))), None), (opt.discr != 1, default, None)])
+        raise
     some = list(opt.variants.get(1, [UNINIT]))
     return ("fork", [(opt.discr == 1, ("frame", f, fargs(f, cl, some), None), None), (opt.discr != 1, default, None)])
 
@@ -724,7 +731,26 @@ def h_opt_or_else(engine, st, fr, callee, argv, m):
     return ("fork", [(opt.discr == 1, opt, None), (opt.discr != 1, ("frame", f, fargs(f, cl, []), None), None)])
 
 
+def h_unwrap_or_default(engine, st, fr, callee, argv, m):
+    """Result<T, E>::unwrap_or_default / Option<T>::unwrap_or_default for T = Option<_> (None), an integer (0) or bool (false)"""
+    v = argv[0]
+    ty = m.group(2).strip()
+    if ty.startswith("Option<") or ty.startswith("std::option::Option<"):
+        dflt = EnumV("Option", 0, {})
+    elif ty in INT_TY:
+        dflt = Int(z3.BitVecVal(0, INT_TY[ty][0]), ty)
+    elif ty == "bool":
+        dflt = BoolV(z3.BoolVal(False))
+    else:
+        raise Unsupported("unwrap_or_default for %s" % ty)
+    if not isinstance(v, EnumV):
+        raise Unsupported("unwrap_or_default of %r" % (v,))
+    good = 0 if m.group(1) == "Result" else 1
+    return ("fork", [(v.discr == good, v.variants.get(good, [UNINIT])[0], None), (v.discr != good, dflt, None)])
+
+
 GENERIC_COMBINATORS = [
+    (rx(r"^(?:std::result::|std::option::)?(Result|Option)::<(.*?)(?:, [^<>]*(?:<[^<>]*>)?)?>::unwrap_or_default$"), h_unwrap_or_default),
     (rx(r"^(?:std::option::)?Option::<.*>::or_else::<"), h_opt_or_else),
     (rx(r"^(?:std::option::)?Option::<.*>::map_or::<"), h_opt_map_or),
     (rx(r"^(?:std::option::)?Option::<.*>::(map|and_then)::<"), h_opt_map),
